@@ -29,6 +29,15 @@ const PR_NUMERIC_NONORM: &str = r#"{"class":"com.worksap.nlp.sudachi.JoinNumeric
 const PR_KATAKANA: &str = r#"{"class":"com.worksap.nlp.sudachi.JoinKatakanaOovPlugin","oovPOS":["名詞","普通名詞","一般","*","*","*"],"minLength":3}"#;
 const PR_KATAKANA1: &str = r#"{"class":"com.worksap.nlp.sudachi.JoinKatakanaOovPlugin","oovPOS":["名詞","固有名詞","一般","*","*","*"],"minLength":1}"#;
 
+/// a user dictionary whose words are written in kana but split into the system dictionary's kanji units (the unit key lengths do not
+/// add up to the word's length: the last unit must inherit the parent's end), and two short katakana words whose HEADWORD (column 4)
+/// has another byte length than the key they are found by (column 0): whatever is derived from the headword's length instead of the
+/// matched text shows when they are merged into a longer katakana token
+pub const KANA_USER: &str = "とうきょうと,6,8,-3000,とうきょうと,名詞,固有名詞,地名,一般,*,*,トウキョウト,東京都,*,C,5/9,5/9,*,*\nきょうとふ,6,6,-3000,きょうとふ,名詞,固有名詞,地名,一般,*,*,キョウトフ,京都府,*,B,*,3/9,*,*\nアイウアイ,7,7,-2000,アイウアイ,名詞,普通名詞,一般,*,*,*,アイウアイ,アイウアイ,*,C,11/10,11/10,*,*\nキロ,7,7,-2000,㌔,名詞,普通名詞,一般,*,*,*,キロ,キロ,*,A,*,*,*,*\nメガ,7,7,-2000,メガメガ,名詞,普通名詞,一般,*,*,*,メガ,メガ,*,A,*,*,*,*\n";
+pub fn kana_user_keys() -> Value {
+    json!([{"key": cps("とうきょうと"), "lid": 6}, {"key": cps("きょうとふ"), "lid": 6}, {"key": cps("アイウアイ"), "lid": 7}, {"key": cps("キロ"), "lid": 7}, {"key": cps("メガ"), "lid": 7}])
+}
+
 fn cfg_json(input: &[&str], oov: &[&str], pr: &[&str]) -> String {
     format!(
         r#"{{"characterDefinitionFile":"char.def","inputTextPlugin":[{}],"oovProviderPlugin":[{}],"pathRewritePlugin":[{}]}}"#,
@@ -55,13 +64,13 @@ pub fn fixture_worlds() -> Vec<World> {
     let mut out = Vec::new();
     // a user dictionary whose words are written in kana but split into the system dictionary's kanji units:
     // the unit key lengths do not add up to the word's length (the last unit must inherit the parent's end)
-    let kana_user = "とうきょうと,6,8,-3000,とうきょうと,名詞,固有名詞,地名,一般,*,*,トウキョウト,東京都,*,C,5/9,5/9,*,*\nきょうとふ,6,6,-3000,きょうとふ,名詞,固有名詞,地名,一般,*,*,キョウトフ,京都府,*,B,*,3/9,*,*\nアイウアイ,7,7,-2000,アイウアイ,名詞,普通名詞,一般,*,*,*,アイウアイ,アイウアイ,*,C,11/10,11/10,*,*\n";
+    let kana_user = KANA_USER;
     for (name, i, o, p) in stacks {
         let (sys, mut users) = dicts::test_dict_bytes(true);
         let mut extra_lex: Vec<Value> = Vec::new();
-        if name == "full" || name == "plain" || name == "norewrite" {
+        if name == "full" || name == "plain" || name == "norewrite" || name == "reordered" {
             users.push(dicts::build_user(&sys, kana_user.as_bytes()).expect("kana user dictionary"));
-            extra_lex.push(json!([[6, 8, -3000], [6, 6, -3000], [7, 7, -2000]]));
+            extra_lex.push(json!([[6, 8, -3000], [6, 6, -3000], [7, 7, -2000], [7, 7, -2000], [7, 7, -2000]]));
         }
         let cfg = cfg_json(&i, &o, &p);
         let dict = dicts::load(&cfg, &res, sys, users).unwrap_or_else(|e| panic!("world {}: {:?}", name, e));
